@@ -1,1 +1,125 @@
-// harnesses (h_exec)
+// Harnesses living inside `mod exec`: they see Exec's private fields, the
+// adapters and display_escape.
+#[cfg(kani)]
+mod vh_exec {
+    use super::*;
+    use crate::mk;
+    use crate::mk::proc_ as mp;
+    use crate::mk::Obj;
+    use crate::os_common::StandardStream;
+    use crate::popen::PopenError;
+    use std::rc::Rc;
+
+    pub fn gss(which: StandardStream) -> io::Result<Rc<File>> {
+        crate::posix::make_standard_stream(which)
+    }
+
+    /// deadlock oracle for blocking waits (see vh_pipeline::blocking_wait_oracle)
+    pub unsafe fn blocking_wait_oracle(k: usize) {
+        let mine = mp::mask_of_open_pipe_ends();
+        let his = mp::KIDS[k].holds;
+        let sp = mp::KIDS[k].status_pipe;
+        let spm: u16 = if sp < 8 { !(1u16 << sp) } else { 0xffff };
+        let his_read = his & 0xff;
+        let his_write = (his >> 8) & 0xff;
+        let my_read = mine & 0xff;
+        let my_write = (mine >> 8) & 0xff;
+        vcheck!(C12, (his_read & my_write & spm) == 0, "C12/no-wait-holding-childs-stdin: a handle waits for its child while still holding the write end of the child's stdin pipe (a child waiting for end-of-file is never released)");
+        vcheck!(C12, (his_write & my_read & spm) == 0, "C12/no-wait-holding-childs-output: a handle waits for its child while still holding the read end of a pipe the child writes to (a child blocked on a full pipe is never released)");
+    }
+
+    pub unsafe fn parent_role() {
+        mk::reset();
+        mk::init_std_fds();
+        mp::AUTO_STATUS = true;
+        mp::AT_BLOCKING_WAIT = Some(blocking_wait_oracle);
+        mp::KID_STATUS[0] = (kani::any::<u8>() as i32) << 8;
+    }
+
+    pub unsafe fn after_handle_gone(detached: bool) {
+        vcheck!(C12, detached || mp::KIDS[0].st == mp::KidSt::Reaped, "C12/handle-reaps: a non-detached handle went away and left its child unreaped");
+        vcheck!(C12, !detached || (mp::WAITPID_CALLS == 0 && mp::KIDS[0].st == mp::KidSt::Running), "C12/detached-never-waits: a detached handle waited for or reaped the child");
+        let mut f = 3;
+        while f < mk::NFD {
+            vcheck!(C12, mk::FDT[f].obj == Obj::Closed, "C12/no-descriptor-left: a descriptor of the handle is still open after it went away");
+            f += 1;
+        }
+    }
+
+    /// which: 0 stream_stdout, 1 stream_stderr, 2 stream_stdin, 3 join, 4 popen+drop
+    pub unsafe fn adapter_case(which: u8, detached: bool) {
+        parent_role();
+        let mut e = Exec::cmd("/p");
+        if detached {
+            e = e.detached();
+        }
+        match which {
+            0 => {
+                let r = e.stream_stdout();
+                match r {
+                    Ok(a) => {
+                        kani::cover!(true, "COVER/adapter-created");
+                        drop(a);
+                    }
+                    Err(x) => std::mem::forget(x),
+                }
+            }
+            1 => {
+                let r = e.stream_stderr();
+                match r {
+                    Ok(a) => drop(a),
+                    Err(x) => std::mem::forget(x),
+                }
+            }
+            2 => {
+                let r = e.stream_stdin();
+                match r {
+                    Ok(a) => drop(a),
+                    Err(x) => std::mem::forget(x),
+                }
+            }
+            3 => {
+                let r = e.join();
+                match r {
+                    Ok(s) => {
+                        vcheck!(C12, detached || s == ExitStatus::Exited(((mp::KID_STATUS[0] >> 8) & 0xff) as u32), "C12/join-status: join() returned a status that is not the child's");
+                    }
+                    Err(x) => std::mem::forget(x),
+                }
+            }
+            _ => {
+                let r = e.stdin(Redirection::Pipe).stdout(Redirection::Pipe).popen();
+                match r {
+                    Ok(mut p) => {
+                        // the caller releases the pipe ends it was given, then drops
+                        p.stdin.take();
+                        p.stdout.take();
+                        drop(p);
+                    }
+                    Err(x) => std::mem::forget(x),
+                }
+            }
+        }
+        if which != 3 || !detached {
+            after_handle_gone(detached && which != 3);
+        }
+    }
+
+    macro_rules! adapter_harness {
+        ($name:ident, $w:expr) => {
+            #[kani::proof]
+            #[kani::stub(crate::popen::get_standard_stream, gss)]
+            #[kani::stub(crate::posix::fcntl, crate::mk::fcntl_model)]
+            #[kani::stub(std::env::var_os, crate::posix::vh_posix::var_os_model)]
+            fn $name() {
+                mk::link_model();
+                unsafe { adapter_case($w, kani::any()) }
+            }
+        };
+    }
+    adapter_harness!(h_adapter_stdout, 0);
+    adapter_harness!(h_adapter_stderr, 1);
+    adapter_harness!(h_adapter_stdin, 2);
+    adapter_harness!(h_adapter_join, 3);
+    adapter_harness!(h_adapter_popen, 4);
+}
